@@ -636,7 +636,12 @@ func (b *Builder) genMap(ctx pairCtx, src, dst *SDecl, name string) {
 		m.Notations = append(m.Notations, Notation{Name: "map", Args: []string{other, dpath}})
 	case "field":
 		src.Fields = append(src.Fields, FDecl{Name: other, Type: t})
-		m.Notations = append(m.Notations, Notation{Name: "map", Args: []string{sp(other), dpath}})
+		spath := sp(other)
+		if ctx.topLevel && !isReverse(m) && b.chance(0.3) {
+			// "$1" denotes the source operand itself, wherever the destination field is declared
+			spath = "$1." + spath
+		}
+		m.Notations = append(m.Notations, Notation{Name: "map", Args: []string{spath, dpath}})
 	case "typed":
 		// source of a different type: needs the method's typecast/stringer opt-in
 		ts := b.typeFor(src.Pkg)
